@@ -91,6 +91,20 @@ TetrahedralMeshTopologyKernel::add_cell(std::vector<HalfFaceHandle> _halffaces, 
         }
     }
 
+    if(_topologyCheck) {
+        // Four triangles in which every halfedge is matched by its opposite can still be
+        // two separate "pillows"; a tetrahedron has exactly four distinct vertices.
+        std::set<VertexHandle> vertices;
+        for(const auto &hfh: _halffaces) {
+            for(const auto &heh: TopologyKernel::halfface(hfh).halfedges()) {
+                vertices.insert(TopologyKernel::halfedge(heh).from_vertex());
+            }
+        }
+        if(vertices.size() != 4) {
+            return TopologyKernel::InvalidCellHandle;
+        }
+    }
+
     return TopologyKernel::add_cell(std::move(_halffaces), _topologyCheck);
 }
 
